@@ -58,7 +58,7 @@ def generate(ctx):
     rng = ctx.rng
     for _ in range(ctx.n(36000, 600000)):
         r = rng.random()
-        if r < 0.72:
+        if r < 0.68:
             cls = rng.choice(_CLASSES)
             case = {'t': 'history', 'cls': cls, 'seed': rng.randrange(1 << 30), 'ncalls': rng.randint(1, 6)}
             if cls in ('Frame', 'FrameHE'):
@@ -80,6 +80,11 @@ def generate(ctx):
                 case['kind'] = k
                 case['labels'] = L.flat_labels(k, rng.randint(0, 6), rng)
             yield case
+        elif r < 0.76:
+            # an immutable container derived from a grow-only one must not see the growth that follows
+            yield {'t': 'go_alias', 'src': rng.choice(['IndexGO', 'IndexGO', 'IndexDateGO', 'FrameGO', 'FrameGO', 'IndexHierarchyGO']),
+                   'route': rng.randrange(8), 'kind': rng.choice(['str', 'int', 'str']), 'n': rng.randint(1, 4), 'grow': rng.randint(1, 3),
+                   'read_first': rng.random() < 0.5}
         elif r < 0.88:
             yield {'t': 'alias', 'site': rng.choice(ALIAS_SITES), 'dt': rng.choice(['int64', 'float64', 'bool', '<U5', 'object', 'M8[D]']),
                    'n': rng.randint(1, 5), 'seed': rng.randrange(1 << 30), 'readonly_input': rng.random() < 0.15}
@@ -538,6 +543,8 @@ def check(case, ctx):
         return _check_history(case, ctx)
     if case['t'] == 'alias':
         return _check_alias(case, ctx)
+    if case['t'] == 'go_alias':
+        return _check_go_alias(case, ctx)
     return _check_serialize(case, ctx)
 
 
@@ -633,6 +640,80 @@ def _check_history(case, ctx):
                 r = r[1]
             if _is_container(r) and len(pool) < 8:
                 pool.append({'obj': r, 'snap': _snapx(r), 'origin': f'{cname}.{name}'})
+
+
+# --------------------------------------------------------------------------------------
+# immutable containers derived from grow-only ones
+
+def _check_go_alias(case, ctx):
+    import static_frame as sf
+    src, n, kind = case['src'], case['n'], case['kind']
+    labels = [f'k{i}' for i in range(n)] if kind == 'str' else [10 + 3 * i for i in range(n)]
+    fresh = [f'z{i}' for i in range(case['grow'])] if kind == 'str' else [500 + i for i in range(case['grow'])]
+    derived = []
+    if src in ('IndexGO', 'IndexDateGO'):
+        if src == 'IndexDateGO':
+            labels = [np.datetime64('2020-01-01') + np.timedelta64(i, 'D') for i in range(n)]
+            fresh = [np.datetime64('2021-06-01') + np.timedelta64(i, 'D') for i in range(case['grow'])]
+            go = sf.IndexDateGO(labels)
+            static_cls = sf.IndexDate
+        else:
+            go = sf.IndexGO(labels)
+            static_cls = sf.Index
+        routes = [('static_init', lambda: static_cls(go)), ('series_index', lambda: sf.Series(np.arange(len(go)), index=go)),
+                  ('frame_columns', lambda: sf.Frame(np.arange(len(go)).reshape(1, len(go)), columns=go)), ('copy', lambda: static_cls(go.copy())),
+                  ('iloc_all', lambda: go.iloc[:]), ('rename', lambda: static_cls(go.rename('r'))),
+                  ('frame_index', lambda: sf.Frame(np.arange(len(go)).reshape(len(go), 1), index=go)), ('union', lambda: static_cls(go).union(go))]
+        grow = lambda lab: go.append(lab)
+    elif src == 'IndexHierarchyGO':
+        tree = [('a', x) for x in labels]
+        fresh = [('b', x) for x in fresh]
+        go = sf.IndexHierarchyGO.from_labels(tree)
+        routes = [('static_init', lambda: sf.IndexHierarchy(go)), ('series_index', lambda: sf.Series(np.arange(len(go)), index=go)),
+                  ('copy', lambda: sf.IndexHierarchy(go.copy())), ('rename', lambda: sf.IndexHierarchy(go.rename('r'))),
+                  ('frame_index', lambda: sf.Frame(np.arange(len(go)).reshape(len(go), 1), index=go)),
+                  ('level_drop', lambda: go.level_drop(1)), ('iloc_all', lambda: go.iloc[:]), ('flat', lambda: go.flat())]
+        grow = lambda lab: go.append(lab)
+    else:
+        go = sf.FrameGO(np.arange(2 * n).reshape(2, n), columns=labels)
+        routes = [('to_frame', lambda: go.to_frame()), ('to_frame_he', lambda: go.to_frame_he()), ('Frame_init', lambda: sf.Frame(go)),
+                  ('reduction', lambda: go.sum()), ('columns_static', lambda: sf.Index(go.columns)), ('iloc_all', lambda: go.iloc[:, :].to_frame()),
+                  ('transpose', lambda: go.T.to_frame()), ('row', lambda: go.iloc[0])]
+        grow = lambda lab: go.__setitem__(lab, np.array([7, 8]))
+    rname, make = routes[case['route'] % len(routes)]
+    klass = {'t': 'go_alias', 'src': src, 'route': rname, 'read_first': case['read_first']}
+    ctx.evaluation(repr(case), True)
+    ctx.tally('go_alias_route', f'{src}.{rname}')
+    if case['read_first']:
+        go.values if not isinstance(go, sf.Frame) else go.columns.values
+    try:
+        d = make()
+    except Exception as e:
+        ctx.tally('go_alias_route_raised', f'{src}.{rname}:{type(e).__name__}')
+        return
+    IndexBase = _IndexBase()
+    if not (_is_container(d) or isinstance(d, IndexBase)):
+        return
+    if isinstance(d, (sf.FrameGO, sf.IndexGO, sf.IndexHierarchyGO)):
+        return  # a grow-only result is not an immutable container
+    before = _snapx(d)
+    axes = [d] if isinstance(d, IndexBase) else [x for x in (getattr(d, 'index', None), getattr(d, 'columns', None)) if isinstance(x, IndexBase)]
+    for lab in fresh:
+        grow(lab)
+    after = _snapx(d)
+    if after != before:
+        ctx.violation('growth_of_source_changed_immutable_container', detail={'route': rname, 'before': canon.brief(before, 500), 'after': canon.brief(after, 500)},
+                      klass=klass)
+        return
+    for ax in axes:
+        for lab in fresh:
+            try:
+                inside = lab in ax
+            except Exception:
+                continue
+            if inside:
+                ctx.violation('growth_of_source_changed_immutable_container', detail={'route': rname, 'label_now_member': repr(lab)}, klass=dict(klass, via='membership'))
+                return
 
 
 # --------------------------------------------------------------------------------------
